@@ -444,6 +444,9 @@ fn run_single_program(
                         libs::dup2(fds.1, 1);
                         libs::close(fds.1);
                     }
+                } else if let Some(fds) = fds_capture_stdout {
+                    libs::close(fds.0);
+                    libs::close(fds.1);
                 }
                 if !stderr_redirected {
                     if let Some(fds) = fds_capture_stderr {
@@ -451,6 +454,9 @@ fn run_single_program(
                         libs::dup2(fds.1, 2);
                         libs::close(fds.1);
                     }
+                } else if let Some(fds) = fds_capture_stderr {
+                    libs::close(fds.0);
+                    libs::close(fds.1);
                 }
             }
 
